@@ -6,7 +6,7 @@
 (* ChunkReader.ReadChunk), the readers channel, and the pipes.             *)
 (*                                                                         *)
 (* One action per critical section / channel operation of the code:        *)
-(*   nextPipe      n1 close previous pipe; n2 readerMu.Lock;               *)
+(*   nextPipe      n1 close previous pipe; n2 readerMu.Lock; (n2c: repair) *)
 (*                 n3 select {<-closing | readers <- pr}; n4 (force) close,*)
 (*                    w.w = pw                                             *)
 (*   bufPipe       Write (one critical section: err check, signal, append),*)
@@ -36,7 +36,9 @@ CONSTANTS
     Want,       \* units ReadChunk asks io.ReadFull for
     Cancels,    \* subset of BOOLEAN: the consumer may cancel after a ReadChunk
     Lates,      \* subset of BOOLEAN: the consumer starts after the producer finished
-    Stops       \* subset of BOOLEAN: the producer stops at the first error (a module that checks errors)
+    Stops,      \* subset of BOOLEAN: the producer stops at the first error (a module that checks errors)
+    ClosingCheck \* BOOLEAN: FALSE = chunk.go as it is; TRUE = nextPipe polls w.closing (under readerMu)
+                \* before the select (the proposed repair of the send-on-closed-channel panic)
 
 VARIABLES
     cfg,            \* the configuration of this behaviour [K, sid, cancel, late, stop], chosen in Init
@@ -140,8 +142,16 @@ PN1 ==
 PN2 ==  \* w.readerMu.Lock()
     /\ pc["P"] = "n2" /\ rmu = "none"
     /\ rmu' = "P"
-    /\ Goto("P", "n3")
+    /\ Goto("P", IF ClosingCheck THEN "n2c" ELSE "n3")
     /\ UNCHANGED <<cfg, ch, chClosed, closing, pipes, ww, pi, pnew, wn, perrs, cur, got, rfor, recv, panic, nid>>
+
+(* proposed repair: select { case <-w.closing: unlock, return ErrClosedPipe; default: } *)
+PN2C ==
+    /\ pc["P"] = "n2c"
+    /\ IF closing
+       THEN rmu' = "none" /\ pnew' = 0 /\ OpDone(TRUE)
+       ELSE Goto("P", "n3") /\ UNCHANGED <<rmu, pnew, pi, perrs>>
+    /\ UNCHANGED <<cfg, ch, chClosed, closing, pipes, ww, wn, cur, got, rfor, recv, panic, nid>>
 
 (* select { case <-w.closing: ...  case w.readers <- pr: ... }              *)
 PN3Closing ==
@@ -337,7 +347,7 @@ CX0 ==      \* ChunkReader.Close(): if r.r != nil { r.r.Close() }
 -----------------------------------------------------------------------------
 Terminated == pc["P"] \in {"done", "crashed"} /\ pc["C"] = "done"
 
-Producer == POp \/ PN1 \/ PN2 \/ PN3Closing \/ PN3SendBuffered \/ PN3Rendezvous \/ PN3Panic \/ PN4 \/ PW1 \/ PW2
+Producer == POp \/ PN1 \/ PN2 \/ PN2C \/ PN3Closing \/ PN3SendBuffered \/ PN3Rendezvous \/ PN3Panic \/ PN4 \/ PW1 \/ PW2
                \/ X1("P") \/ X2("P") \/ X3("P") \/ X4("P")
 Consumer == CWait \/ C0 \/ CKey \/ CR1 \/ CR2 \/ CBody \/ CRet \/ CX0
                \/ X1("C") \/ X2("C") \/ X3("C") \/ X4("C")
